@@ -79,6 +79,19 @@ func c12Rules(p *core.Prog, r *core.Run) {
 	// --- T2 / T6
 	rs := p.Func(Ech, "(*Resolver).Resolve")
 	var cons []*ssa.Function
+	inScope := map[*ssa.Function]bool{}
+	for _, f := range scope {
+		inScope[f] = true
+	}
+	dec := p.Func(DNS, "DecodeMessage")
+	handlesDecoded := func(f *ssa.Function) bool {
+		for _, g := range reachableFuncs(p, core.Root(f)) {
+			if g == dec {
+				return true
+			}
+		}
+		return false
+	}
 	for _, f := range reachableFuncs(p, rs) {
 		root := core.Root(f)
 		if root.Pkg == nil {
@@ -87,6 +100,13 @@ func c12Rules(p *core.Prog, r *core.Run) {
 		switch root.Pkg.Pkg.Path() {
 		case Ech:
 			if strings.Contains(p.FuncName(root), "Resolver") || strings.Contains(p.FuncName(root), "validName") {
+				cons = append(cons, f)
+			}
+		case DNS:
+			// what the resolver calls in the codec's package to fetch the
+			// answer (DoH and whatever it is written with) handles the
+			// decoded message as well
+			if !inScope[f] && handlesDecoded(f) {
 				cons = append(cons, f)
 			}
 		}
@@ -438,7 +458,11 @@ func c12Assert(p *core.Prog, ta *ssa.TypeAssert, table map[int64]string) (bool, 
 						okAll = false
 					}
 				case a.Op == "const":
-					// "not found" (-1): never used as an index (index safety, T2)
+					// "not found" (-1): never used as an index (index safety, T2);
+					// any other constant position says nothing about the record there
+					if k, ok := a.ConstInt(); !ok || k >= 0 {
+						okAll = false
+					}
 				default:
 					// reached only where this very element was tested: the value flows
 					// in (through φ-nodes) from a block guarded by X[a].Type == K
@@ -459,6 +483,62 @@ func rrTypeCode(p *core.Prog, name string) (int64, bool) {
 	e, _ := globalLit(p, DNS, "rrTypes")
 	cl, ok := e.(*ast.CompositeLit)
 	if !ok {
+		// the table in another form: a package-level list of {name, number}
+		// pairs, or the switch of dns.RRType
+		if pk := p.PkgByP[DNS]; pk != nil {
+			for _, f := range pk.Syntax {
+				for _, d := range f.Decls {
+					gd, isGD := d.(*ast.GenDecl)
+					if !isGD || gd.Tok != token.VAR {
+						continue
+					}
+					for _, sp := range gd.Specs {
+						for _, val := range sp.(*ast.ValueSpec).Values {
+							outer, isCL := val.(*ast.CompositeLit)
+							if !isCL {
+								continue
+							}
+							for _, el := range outer.Elts {
+								pair, isPair := el.(*ast.CompositeLit)
+								if !isPair || len(pair.Elts) != 2 {
+									continue
+								}
+								var nm string
+								var num int64 = -1
+								for _, pe := range pair.Elts {
+									if kv, isKV := pe.(*ast.KeyValueExpr); isKV {
+										pe = kv.Value
+									}
+									if v, okC := constOf(p, DNS, pe); okC {
+										if v.Kind() == constant.String {
+											nm = constant.StringVal(v)
+										} else if c, okI := constant.Int64Val(constant.ToInt(v)); okI {
+											num = c
+										}
+									}
+								}
+								if nm == strings.ToUpper(name) && num >= 0 {
+									return num, true
+								}
+							}
+						}
+					}
+				}
+			}
+		}
+		if fn := p.Func(DNS, "RRType"); fn != nil {
+			for _, ret := range core.Returns(fn) {
+				k, isK := p.X(ret.Results[0]).ConstInt()
+				if !isK {
+					continue
+				}
+				for _, f := range p.Facts(ret.Block()) {
+					if f.Op == "==" && f.R != nil && f.R.Op == "const" && strings.Trim(f.R.Name, `"`) == strings.ToUpper(name) {
+						return k, true
+					}
+				}
+			}
+		}
 		return 0, false
 	}
 	for _, el := range cl.Elts {
